@@ -137,9 +137,12 @@ pub fn run(case: &Value, _params: &Params, out: &mut Vec<Value>) {
                 let axis = jint(case, "axis") as usize;
                 let qv: Vec<bool> = case["qv"].as_array().map(|x| x.iter().map(|b| b.as_bool().unwrap()).collect()).unwrap_or_default();
                 // the kinds of invalid q alternate, starting with q > 1 or q < 0 depending on the row
-                let bads = if s1.iter().sum::<usize>() % 2 == 0 { [1.5, -0.5, 7.0, -2.0] } else { [-0.5, 1.5, -2.0, 7.0] };
-                let goods = [0.5, 0.25, 1.0, 0.0];
-                let qs: Vec<f64> = qv.iter().enumerate().map(|(k, &ok)| if ok { goods[k % 4] } else { bads[k % 4] }).collect();
+                // ... and include the values next to the two boundaries: -0.0 and the smallest subnormal are inside [0, 1],
+                // 1 + 2^-52, the negative subnormal and the infinities are outside
+                let salt = s1.iter().sum::<usize>() + 3 * axis + forder as usize;
+                let bads = [1.5, -0.5, 1.0 + f64::EPSILON, -5e-324, f64::INFINITY, -2.0, f64::NEG_INFINITY, 7.0];
+                let goods = [0.5, -0.0, 1.0, 0.0, 5e-324, 1.0 - f64::EPSILON / 2.0, 0.25];
+                let qs: Vec<f64> = qv.iter().enumerate().map(|(k, &ok)| if ok { goods[(k + salt) % 7] } else { bads[(k + salt) % 8] }).collect();
                 let qarr: Array1<N64> = qs.iter().map(|&q| n64(q)).collect();
                 let an = a.mapv(n64);
                 let qres = |r: Result<(), QuantileError>, qs: &[f64]| -> Value {
@@ -147,7 +150,7 @@ pub fn run(case: &Value, _params: &Params, out: &mut Vec<Value>) {
                         Ok(()) => json!({"out": "ok", "first": [], "second": [], "badq": 0}),
                         Err(QuantileError::EmptyInput) => json!({"out": "EmptyInput", "first": [], "second": [], "badq": 0}),
                         Err(QuantileError::InvalidQuantile(q)) => json!({"out": "InvalidQuantile", "first": [], "second": [],
-                            "badq": qs.iter().position(|&x| x == q.raw()).map(|p| p as i64 + 1).unwrap_or(-1)}),
+                            "badq": qs.iter().position(|&x| x.to_bits() == q.raw().to_bits()).map(|p| p as i64 + 1).unwrap_or(-1)}),
                     }
                 };
                 // bulk forms see the whole list; single forms see only the first q
